@@ -100,8 +100,10 @@ type wsClient struct {
 	c      net.Conn
 	br     *bufio.Reader
 	mu     sync.Mutex
+	wmu    sync.Mutex
 	frames []wsFrame
 	closed bool
+	echoed bool
 }
 
 func wsDial(url string) (*wsClient, error) {
@@ -169,8 +171,35 @@ func (w *wsClient) readLoop() {
 		}
 		w.mu.Lock()
 		w.frames = append(w.frames, wsFrame{h[0] & 0x0f, p})
+		echo := h[0]&0x0f == 8 && !w.echoed
+		if echo {
+			w.echoed = true
+		}
 		w.mu.Unlock()
+		if echo {
+			// closing handshake: answer the server's close frame (the server waits for it before it drops the connection)
+			code := p
+			if len(code) > 2 {
+				code = code[:2]
+			}
+			_ = w.send(8, code)
+		}
 	}
+}
+
+// gone tells whether the server closed the connection (close frame received or end of stream).
+func (w *wsClient) gone() bool {
+	w.mu.Lock()
+	defer w.mu.Unlock()
+	if w.closed {
+		return true
+	}
+	for _, f := range w.frames {
+		if f.Op == 8 {
+			return true
+		}
+	}
+	return false
 }
 
 func (w *wsClient) send(op byte, payload []byte) error {
@@ -189,6 +218,8 @@ func (w *wsClient) send(op byte, payload []byte) error {
 	for i := range payload {
 		body[i] = payload[i] ^ mask[i%4]
 	}
+	w.wmu.Lock()
+	defer w.wmu.Unlock()
 	_, err := w.c.Write(append(hdr, body...))
 	return err
 }
@@ -291,13 +322,7 @@ func dictRow(idx int, row map[string]any, res *vh.Result) {
 			fail(fmt.Sprintf("expected the stale timer to be armed, found %d timers", n))
 			return
 		}
-		for deadline := time.Now().Add(gateWait); time.Now().Before(deadline); time.Sleep(200 * time.Microsecond) {
-			ws.mu.Lock()
-			cl := ws.closed
-			ws.mu.Unlock()
-			if cl {
-				break
-			}
+		for deadline := time.Now().Add(gateWait); time.Now().Before(deadline) && !ws.gone(); time.Sleep(200 * time.Microsecond) {
 		}
 		gate.Release()
 	} else {
